@@ -281,12 +281,11 @@ pub fn object_values(
         if let ExoticObject::Enum(ref data) = obj.exotic {
             data.values()
         } else {
-            // Standard object - get from properties
-            // Only include enumerable string keys, not symbols
-            obj.properties
-                .iter()
-                .filter(|(key, prop)| prop.enumerable() && !key.is_symbol())
-                .map(|(_, prop)| prop.value.clone())
+            // Own enumerable string-keyed properties (array elements included), not symbols
+            obj.own_enumerable_entries()
+                .into_iter()
+                .filter(|(key, _)| !key.is_symbol())
+                .map(|(_, value)| value)
                 .collect()
         }
     };
@@ -314,12 +313,11 @@ pub fn object_entries(
         if let ExoticObject::Enum(ref data) = obj.exotic {
             data.entries()
         } else {
-            // Standard object - get from properties
-            // Only include enumerable string keys, not symbols
-            obj.properties
-                .iter()
-                .filter(|(key, prop)| prop.enumerable() && !key.is_symbol())
-                .map(|(key, prop)| (key.to_string(), prop.value.clone()))
+            // Own enumerable string-keyed properties (array elements included), not symbols
+            obj.own_enumerable_entries()
+                .into_iter()
+                .filter(|(key, _)| !key.is_symbol())
+                .map(|(key, value)| (key.to_string(), value))
                 .collect()
         }
     };
@@ -351,13 +349,10 @@ pub fn object_assign(
 
     for source in args.iter().skip(1) {
         if let JsValue::Object(src_ref) = source {
-            let src = src_ref.borrow();
-            for (key, prop) in src.properties.iter() {
-                if prop.enumerable() {
-                    target_ref
-                        .borrow_mut()
-                        .set_property(key.clone(), prop.value.clone());
-                }
+            // (collected first: the source may be the target itself)
+            let entries = src_ref.borrow().own_enumerable_entries();
+            for (key, value) in entries {
+                target_ref.borrow_mut().set_property(key, value);
             }
         }
     }
